@@ -30,6 +30,7 @@ type flagVar struct {
 	name  string
 	usage string
 	kind  string // BoolVar, UintVar, ...
+	ptr   bool   // registered with fs.Bool / fs.Int / ...: the variable holds a pointer to the flag value
 }
 
 func checkC20(c *Check) {
@@ -70,7 +71,25 @@ func checkC20(c *Check) {
 	var flags []flagVar
 	for _, ci := range callsIn(comp) {
 		f := staticCallee(ci)
-		if f == nil || recvTypeName(f) != "FlagSet" || !strings.HasSuffix(f.Name(), "Var") {
+		if f == nil || recvTypeName(f) != "FlagSet" {
+			continue
+		}
+		if call, isCall := ci.(*ssa.Call); isCall && !strings.HasSuffix(f.Name(), "Var") && len(call.Call.Args) == 4 {
+			// fs.Bool(name, value, usage) and its siblings return a pointer kept in a local variable
+			if _, isPtr := call.Type().Underlying().(*types.Pointer); isPtr {
+				name, okN := constString(call.Call.Args[1])
+				usage, _ := constString(call.Call.Args[3])
+				for _, r := range *call.Referrers() {
+					if st, isS := r.(*ssa.Store); isS && st.Val == ssa.Value(call) && okN {
+						if al, isAl := st.Addr.(*ssa.Alloc); isAl {
+							flags = append(flags, flagVar{al, "", name, usage, f.Name() + "Var", true})
+						}
+					}
+				}
+			}
+			continue
+		}
+		if !strings.HasSuffix(f.Name(), "Var") {
 			continue
 		}
 		a := ci.Common().Args
@@ -78,9 +97,9 @@ func checkC20(c *Check) {
 		usage, _ := constString(a[len(a)-1])
 		switch cell := a[1].(type) {
 		case *ssa.Alloc:
-			flags = append(flags, flagVar{cell, "", name, usage, f.Name()})
+			flags = append(flags, flagVar{cell, "", name, usage, f.Name(), false})
 		case *ssa.FieldAddr:
-			flags = append(flags, flagVar{cell, typeName(cell.X.Type()) + "." + fieldName(cell.X.Type(), cell.Field), name, usage, f.Name()})
+			flags = append(flags, flagVar{cell, typeName(cell.X.Type()) + "." + fieldName(cell.X.Type(), cell.Field), name, usage, f.Name(), false})
 		}
 	}
 	if len(flags) < 5 {
@@ -118,7 +137,25 @@ func checkC20(c *Check) {
 		if fv.key == "" {
 			for _, r := range *fv.cell.Referrers() {
 				if u, ok := r.(*ssa.UnOp); ok && u.Op == token.MUL {
-					early = p.InstrPos(u)
+					if !fv.ptr {
+						early = p.InstrPos(u)
+						continue
+					}
+					// the variable holds the pointer: reading the flag is dereferencing it
+					for _, rr := range *u.Referrers() {
+						if uu, ok := rr.(*ssa.UnOp); ok && uu.Op == token.MUL {
+							early = p.InstrPos(uu)
+						}
+					}
+				}
+				if st, ok := r.(*ssa.Store); ok && fv.ptr && st.Addr == fv.cell {
+					if refs := st.Val.Referrers(); refs != nil {
+						for _, rr := range *refs {
+							if uu, ok := rr.(*ssa.UnOp); ok && uu.Op == token.MUL {
+								early = p.InstrPos(uu)
+							}
+						}
+					}
 				}
 			}
 		} else {
@@ -176,9 +213,15 @@ func checkC20(c *Check) {
 				}
 				if x.Op == token.MUL {
 					switch ad := x.X.(type) {
+					case *ssa.UnOp:
+						// *p where p is the pointer a flag was registered with
+						if fvr, isFV := ad.X.(*ssa.FreeVar); isFV && ad.Op == token.MUL {
+							fv, ok2 := fvOf[fvr.Name()]
+							return fv, neg, ok2 && fv.ptr
+						}
 					case *ssa.FreeVar:
 						fv, ok2 := fvOf[ad.Name()]
-						return fv, neg, ok2
+						return fv, neg, ok2 && !fv.ptr
 					case *ssa.FieldAddr:
 						fv, ok2 := fvOf[typeName(ad.X.Type())+"."+fieldName(ad.X.Type(), ad.Field)]
 						return fv, neg, ok2
